@@ -22,13 +22,17 @@ func (c *Client) Release() {
 	}
 
 	client := c.client()
+	res := c.res
+	// The handle gives up the connection now: a repeated Release must not
+	// touch a resource that may already belong to another holder.
+	c.res = nil
 
-	if client.IsClosed() || time.Since(c.res.CreationTime()) > c.p.options.MaxConnLifetime {
-		c.res.Destroy()
+	if client.IsClosed() || time.Since(res.CreationTime()) > c.p.options.MaxConnLifetime {
+		res.Destroy()
 		return
 	}
 
-	c.res.Release()
+	res.Release()
 }
 
 func (c *Client) Do(ctx context.Context, q ch.Query) (err error) {
